@@ -199,12 +199,14 @@ def layer_b_cases(unit, seed):
     ego = G.ego_menu(seed)[1]
     if unit.get("variant") == "dt":
         est = [dict(s_, t=100 + 100000) for s_ in est]
+    if unit.get("variant") == "rawname":
+        gt = [dict(s_, name={"CAR": "vehicle.car", "PEDESTRIAN": "pedestrian.adult"}.get(s_["label"])) for s_ in gt]
     subs = subsets(len(est), unit["kmax"], unit["both"])
     n_ = 0
     for es in subs:
         for gs in subs:
             n_ += 1
-            if unit.get("variant") == "dt" and n_ % 3:
+            if unit.get("variant") in ("dt", "rawname") and n_ % 3:
                 continue      # the time-offset variant covers every third sub-list pair
             for pol in (unit["policy"],):
                 with_int = unit["task"] == "detection" and (unit["both"] or unit["mode"] in ("CENTERDISTANCE", "IOU2D"))
@@ -255,6 +257,9 @@ def layer_c_units(tier):
         u.append(dict(layer="C", kmax=2, mode=m, task="detection2d", both=False, variant="tlr"))
     for m in ("CENTERDISTANCE", "PLANEDISTANCE"):
         u.append(dict(layer="B", kmax=2, mode=m, task="detection", policy="DEFAULT", both=False, variant="dt"))
+    # the ground truths carry another source spelling of their label than the estimates (car vs vehicle.car, pedestrian vs pedestrian.adult)
+    for pol in ("DEFAULT", "ALLOW_UNKNOWN"):
+        u.append(dict(layer="B", kmax=2, mode="CENTERDISTANCE", task="detection", policy=pol, both=False, variant="rawname"))
     return u
 
 
@@ -337,6 +342,26 @@ def layer_t_cases(unit):
         for shift in (0.4, -0.4):
             frames.append(([dict(base, x=gx + shift * ux, y=gy + shift * uy, yaw=gyaw, size=[2.0, 6.0, 1.5], label="CAR", frame="map")],
                            [dict(base, x=gx, y=gy, yaw=gyaw, size=[2.0, 4.0, 1.5], label="CAR", frame="map")], [1.0, 1.0]))
+    # IoU: a long box and a small square one turned by 45 degrees whose corners overlap by a few centimetres (IoU ~3e-4), next to a
+    # ground truth that does not overlap at all; with and without a threshold below that IoU
+    iou_frames = []
+    for cx, cy, rot in ((10.0, 0.0, 0.0), (-6.0, 8.0, 1.1)):
+        a = -math.atan2(2.0, 6.0) + rot
+        tx, ty = cx + 4.48 * math.cos(rot), cy + 4.48 * math.sin(rot)
+        fx, fy = cx + 30.0 * math.cos(rot), cy + 30.0 * math.sin(rot)
+        for radii in (None, [0.0001, 0.0001]):
+            iou_frames.append(([dict(base, x=cx, y=cy, yaw=a, size=[2.0, 6.0, 2.0], label="CAR")],
+                               [dict(base, x=fx, y=fy, yaw=rot, size=[2.0, 2.0, 2.0], label="CAR"), dict(base, x=tx, y=ty, yaw=rot + math.pi / 4, size=[2.0, 2.0, 2.0], label="CAR")], radii))
+    for ests, gts, radii in iou_frames:
+        for i, s_ in enumerate(ests):
+            s_.update(uuid="e%d" % i, score=0.9)
+        for j, s_ in enumerate(gts):
+            s_.update(uuid="g%d" % j)
+        for mode in ("IOU2D", "IOU3D"):
+            for rev_g in (False, True):
+                for pol in POLICIES:
+                    yield {"layer": "T", "dim": 3, "ests": ests, "gts": list(reversed(gts)) if rev_g else gts, "policy": pol, "radii": radii, "task": "detection",
+                           "mode": mode, "tl": TL, "ego": ego}
     for ests, gts, radii in frames:
         for i, s_ in enumerate(ests):
             s_.update(uuid="e%d" % i, score=round(0.9 - 0.1 * i, 2))
